@@ -93,7 +93,7 @@ def features(ir, g):
 
 def run_c15(ctx, fa):
     rnd = ctx.sub_rnd("c15")
-    n = 700 if ctx.quick() else 9000
+    n = 1600 if ctx.quick() else 12000
     cases = []
     tries = 0
     while len(cases) < n and tries < 6 * n:
